@@ -437,6 +437,7 @@ class ASL_API Var
 			case ARRAY: return *_a==*other._a;
 			case DIC: return *_o == *other._o;
 			case NUL: return true;
+			case NONE: return true;
 			default: return false;
 		}
 	}
